@@ -5,7 +5,7 @@
    computes alone (Proofs/ConcProofs.v). *)
 From Coq Require Import List Arith Bool Lia.
 From Soy Require Import Model.Bytes Model.Values Model.Outcome Model.Ast Model.Interp Model.JsGen Generated.JsGenTrace
-  Model.Compile Model.Conc Model.ConcRender Model.ConcJs Proofs.ConcProofs Proofs.PurityProofs Proofs.ConcRenderProofs.
+  Model.Conc Model.ConcRender Model.ConcJs Proofs.ConcProofs Proofs.PurityProofs Proofs.ConcRenderProofs.
 Import ListNotations.
 Open Scope N_scope.
 
@@ -45,6 +45,15 @@ Proof.
   - rewrite IH. rewrite solo_result_write, solo_trace_write. unfold solo_store. cbn [exec].
     destruct (exec loc_eqb k (upd loc_eqb s l v)) as [[r s'] t]. reflexivity.
 Qed.
+
+Section Tasks.
+Variable CR : Type.
+Notation cres := (cres CR).
+Notation cprog := (cprog CR).
+Notation ctask := (ctask CR).
+Notation crender_prog := (crender_prog CR).
+Notation cjsgen_prog := (cjsgen_prog CR).
+Notation cjsgen_fine_prog := (cjsgen_fine_prog CR).
 
 (* ---------------- the render thread with the new result type ---------------- *)
 
@@ -97,7 +106,7 @@ Lemma cjsgen_fine_disciplined i o fuel file s : disciplined rloc_eqb rowner i (c
 Proof.
   unfold cjsgen_fine_prog. apply disc_read; [left; reflexivity|]. apply disc_read; [left; reflexivity|].
   destruct (s LFiles); try apply disc_done. destruct (nth_error fs file) as [f|]; [|apply disc_done].
-  destruct (gen_file_traced o fuel (sfile_name f) (sfile_body f)) as [r tr].
+  destruct (gen_file_traced o fuel (jf_name f) (jf_body f)) as [r tr].
   apply replay_disciplined. intros s'. apply disc_done.
 Qed.
 Lemma cjsgen_fine_result i o fuel file s :
@@ -105,7 +114,7 @@ Lemma cjsgen_fine_result i o fuel file s :
 Proof.
   unfold cjsgen_fine_prog, js_fine_on. rewrite !solo_result_read.
   destruct (s LFiles); try reflexivity. destruct (nth_error fs file) as [f|]; [|reflexivity].
-  destruct (gen_file_traced o fuel (sfile_name f) (sfile_body f)) as [r tr]. cbn [fst]. apply replay_result.
+  destruct (gen_file_traced o fuel (jf_name f) (jf_body f)) as [r tr]. cbn [fst]. apply replay_result.
 Qed.
 
 (* the fine-grained thread performs exactly the accesses the traced generator logged: one read of the
@@ -136,35 +145,14 @@ Proof.
   rewrite solo_result_write. apply IH.
 Qed.
 
-Lemma ccompile_disciplined i c s : disciplined rloc_eqb rowner i (ccompile_prog i c) s.
-Proof.
-  unfold ccompile_prog. apply write_own_disciplined. intros s'.
-  apply disc_write; [reflexivity|]. apply disc_read; [right; reflexivity|apply disc_done].
-Qed.
-Lemma ccompile_result i c s : solo_result rloc_eqb (ccompile_prog i c) s = CRCompiled (SCompiled (compile_of c)).
-Proof.
-  unfold ccompile_prog. apply write_own_result. intros s'.
-  rewrite solo_result_write, solo_result_read. unfold upd. cbn [rloc_eqb]. rewrite Nat.eqb_refl. reflexivity.
-Qed.
-
-(* the registries the compile thread writes are those of the model's fold: the last one is the one
-   add_all_files returns *)
-Lemma last_cons_indep {A} (l : list A) : forall a d d', last (a :: l) d = last (a :: l) d'.
-Proof. induction l as [|x l IH]; intros a d d'; [reflexivity|]. change (last (x :: l) d = last (x :: l) d'). apply IH. Qed.
-
-Lemma creg_states_last srcs : forall r r', add_all_files r srcs = COk r' -> last (creg_states r srcs) r = r'.
-Proof.
-  induction srcs as [|[f|n m] rest IH]; intros r r' H; cbn [add_all_files creg_states] in *.
-  - now inversion H.
-  - destruct (registry_add r f) as [e|r1]; [discriminate|].
-    specialize (IH r1 r' H). destruct (creg_states r1 rest) as [|c l] eqn:E; [exact IH|].
-    rewrite <- IH. change (last (c :: l) r = last (c :: l) r1). apply last_cons_indep.
-  - discriminate.
-Qed.
+Lemma ccompile_disciplined i (c : ccompile CR) s : disciplined rloc_eqb rowner i (ccompile_prog i c) s.
+Proof. unfold ccompile_prog. apply write_own_disciplined. intros s'. apply disc_done. Qed.
+Lemma ccompile_result i (c : ccompile CR) s : solo_result rloc_eqb (ccompile_prog i c) s = CRCompiled (cc_result c).
+Proof. unfold ccompile_prog. apply write_own_result. intros s'. reflexivity. Qed.
 
 (* ---------------- every task is disciplined and returns its solo result ---------------- *)
 
-Lemma ctask_disciplined i t s : disciplined rloc_eqb rowner i (ctask_prog i t) s.
+Lemma ctask_disciplined i (t : ctask) s : disciplined rloc_eqb rowner i (ctask_prog i t) s.
 Proof.
   destruct t as [rq|o fuel file|o fuel file|c]; cbn [ctask_prog].
   - unfold disciplined, solo_trace. rewrite crender_exec. repeat constructor.
@@ -172,7 +160,7 @@ Proof.
   - apply cjsgen_fine_disciplined.
   - apply ccompile_disciplined.
 Qed.
-Lemma ctask_result i t s : solo_result rloc_eqb (ctask_prog i t) s = ctask_alone t s.
+Lemma ctask_result i (t : ctask) s : solo_result rloc_eqb (ctask_prog i t) s = ctask_alone t s.
 Proof.
   destruct t as [rq|o fuel file|o fuel file|c]; cbn [ctask_prog ctask_alone].
   - unfold solo_result. rewrite crender_exec. reflexivity.
@@ -181,16 +169,16 @@ Proof.
   - apply ccompile_result.
 Qed.
 
-Lemma nth_error_cprogs_from ts : forall i0 i, nth_error (cprogs_from i0 ts) i = option_map (ctask_prog (i0 + i)) (nth_error ts i).
+Lemma nth_error_cprogs_from (ts : list ctask) : forall i0 i, nth_error (cprogs_from i0 ts) i = option_map (ctask_prog (i0 + i)) (nth_error ts i).
 Proof.
   induction ts as [|t r IH]; intros i0 [|i]; cbn [cprogs_from nth_error option_map]; try reflexivity.
   - now rewrite Nat.add_0_r.
   - rewrite IH. now rewrite Nat.add_succ_r.
 Qed.
-Lemma nth_error_ctask_progs ts i : nth_error (ctask_progs ts) i = option_map (ctask_prog i) (nth_error ts i).
+Lemma nth_error_ctask_progs (ts : list ctask) i : nth_error (ctask_progs ts) i = option_map (ctask_prog i) (nth_error ts i).
 Proof. unfold ctask_progs. now rewrite nth_error_cprogs_from. Qed.
 
-Lemma ctasks_disciplined ts s : all_disciplined rloc_eqb rowner (ctask_progs ts) s.
+Lemma ctasks_disciplined (ts : list ctask) s : all_disciplined rloc_eqb rowner (ctask_progs ts) s.
 Proof.
   intros i p Hp. rewrite nth_error_ctask_progs in Hp. destruct (nth_error ts i) as [t|]; [|discriminate].
   inversion Hp; subst. apply ctask_disciplined.
@@ -237,7 +225,7 @@ Qed.
 Definition implements_task (s0 : store rloc sval) (i : nat) (p : cprog) (t : ctask) : Prop :=
   disciplined rloc_eqb rowner i p s0 /\ solo_result rloc_eqb p s0 = ctask_alone t s0.
 
-Lemma ctask_prog_implements s0 i t : implements_task s0 i (ctask_prog i t) t.
+Lemma ctask_prog_implements s0 i (t : ctask) : implements_task s0 i (ctask_prog i t) t.
 Proof. split; [apply ctask_disciplined|apply ctask_result]. Qed.
 
 Theorem any_access_placement :
@@ -264,3 +252,5 @@ Proof.
     + destruct (Hth i p Ep) as (_ & Hdone & _). destruct (Hdone r Hr) as [-> _]. exact (proj2 (Himp i p t Ep Ht)).
     + apply nth_error_None in Ep. assert (i < length (threads c))%nat by (apply (proj1 (nth_error_Some (threads c) i)); intros Hn; discriminate (eq_trans (eq_sym Hn) Hr)). unfold cprog in *. lia.
 Qed.
+
+End Tasks.
